@@ -131,10 +131,20 @@ def run(ctx):
             if owner is None:
                 continue  # use/import level gate
             gated_fns.setdefault(owner.path, []).append(lo)
+    def audited_owner(p, seen=()):
+        """p itself, or - for a private helper - every function that calls it (transitively) is an audited fast-path site:
+        moving the gated lines of an audited function into a private helper of that function does not create a new fast path"""
+        if p in FASTPATH_AUDIT:
+            return True
+        g = cr.fns.get(p) or nf.fns.get(p)
+        if g is None or g.d.get("vis") != "priv" or p in seen:
+            return False
+        cs = {q.path for cfg in (cr, nf) for q, _ in cfg.callers_of(p)} if (cr.has_fn(p) or nf.has_fn(p)) else set()
+        return bool(cs) and all(audited_owner(c, seen + (p,)) for c in cs)
     for p, ls in sorted(gated_fns.items()):
         if is_test_fn(cr.fns.get(p) or nf.fns.get(p)):
             continue
-        ck.ob("R05a", p, p in FASTPATH_AUDIT, "a fast path exists only where its agreement with the generic path has been audited",
+        ck.ob("R05a", p, audited_owner(p), "a fast path exists only where its agreement with the generic path has been audited",
               site=f"{(cr.fns.get(p) or nf.fns.get(p)).file}:{ls[0]}", detail=FASTPATH_AUDIT.get(p) or
               "unaudited no-fastpath gate: which generic computation does it replace, and do cost, value and errors agree?")
     ck.floor("no-fastpath gates", n_g, 9)
@@ -197,8 +207,19 @@ def run(ctx):
         sel = g.bit_direction()
         ck.ob("R05b", g.path + "|direction", sel == [("clear", "left"), ("set", "right")], "a set bit selects the right child, a clear bit the left",
               site=g.where(0), detail=sel)
-    # add / subtract fast paths
-    ca, cs_ = cr.fn("more_ops::op_add::{closure#0}"), cr.fn("more_ops::op_subtract::{closure#0}")
+    # add / subtract fast paths.  The fast body is found by role, not by being `{closure#0}`: the closure of / private function
+    # called by the operator whose result type is Result<Option<integer>> (Ok(None) = "fall back to the generic loop")
+    def fast_body(parent):
+        f0 = cr.fn(parent)
+        cands = [g for q, g in cr.fns.items() if q.startswith(parent + "::{closure") and "Option<" in g.locals[0]["ty"] and "Result<" in g.locals[0]["ty"]]
+        for _, t in f0.calls():
+            g = cr.fns.get(t.get("callee") or "")
+            if g is not None and g.d.get("vis") == "priv" and "Option<" in g.locals[0]["ty"] and "Result<" in g.locals[0]["ty"] and g not in cands:
+                cands.append(g)
+        if len(cands) != 1:
+            raise mir.AnchorMissing(f"{parent}: the u64 fast path (a closure or private function returning Result<Option<..>>) was not found uniquely: {[g.path for g in cands]}")
+        return cands[0]
+    ca, cs_ = fast_body("more_ops::op_add"), fast_body("more_ops::op_subtract")
     ck.analysed(ca, cs_)
 
     def cmap(c):
@@ -237,6 +258,23 @@ def run(ctx):
         ok2 = bool(ccs) and all(any(g.dominates(cb, ub) for cb in ccs) for ub in upd)
         ck.ob("R05b", g.path + "|check before update", ok2, "check_cost precedes the accumulator update (same order as the generic loop)",
               site=g.where(0))
+        # the fast path may fail (CostExceeded) only for an argument it has already accepted: in the generic loop every
+        # check_cost sits inside an arm of the match on the argument's kind, so a pair argument fails with InvalidOpArg before
+        # any budget test of that iteration.  Hence every fallible call in the fast loop must come after the small-integer arm
+        # of the kind test of the same iteration (otherwise the two builds report different error kinds on a tight budget).
+        kind = [(b, tgt) for b in g.reachable_blocks() if g.in_loop(b) and (g.discr_enum(b) or "").endswith("NodeVisitor")
+                for tgt, v in g.succ(b) if v != "otherwise" and (g.discr_variants(b) or {}).get(v) == "U32"]
+        early = []
+        if len(kind) == 1:
+            kb, ktgt = kind[0]
+            for b in sorted(g.reachable_blocks()):
+                if not g.in_loop(b) or not g.question_mark(b):
+                    continue
+                if not (b == ktgt or g.dominates(ktgt, b)):
+                    early.append(g.where(b) + " " + (g.term(b).get("callee") or "?").split("::")[-1])
+        ck.ob("R05b", g.path + "|fails only after the kind test", len(kind) == 1 and not early,
+              "every fallible step of a fast-loop iteration comes after the argument was accepted as a small integer (the generic loop rejects a pair before testing the budget)",
+              site=g.where(kind[0][0]) if kind else g.where(0), detail={"fallible before the kind test": early})
     # generic loops: limbs before += as well
     for p in ("more_ops::op_add", "more_ops::op_subtract"):
         g = cr.fn(p)
